@@ -223,3 +223,18 @@ def test_F22_reorder_by_a_column_of_the_table():
     assert cf.a.tolist() == [2, 3, 0, 1]
     assert cf.b.tolist() == [11, 12, 13, 10]
     assert cf.i.tolist() == [1, 2, 3, 0]
+
+
+def test_F23_sorting_a_frame_whose_pixels_hold_row_and_col():
+    # what SparseScan.getframe hands out: pixels = {'row': view of row, 'col': view of col, 'intensity': ...}
+    from ImageD11 import sparseframe as sf
+    row = np.array([3, 1, 2, 1], np.uint16)
+    col = np.array([0, 5, 2, 1], np.uint16)
+    inten = np.array([30.0, 15.0, 22.0, 11.0], np.float32)
+    f = sf.sparse_frame(row[0:], col[0:], (5, 6), pixels={"row": row[0:], "col": col[0:], "intensity": inten})
+    f.sort()
+    assert f.row.tolist() == [1, 1, 2, 3] and f.col.tolist() == [1, 5, 2, 0]
+    assert f.pixels["intensity"].tolist() == [11.0, 15.0, 22.0, 30.0]
+    assert f.pixels["row"].tolist() == [1, 1, 2, 3] and f.pixels["col"].tolist() == [1, 5, 2, 0]
+    d = f.to_dense("intensity")
+    assert d[3, 0] == 30.0 and d[1, 5] == 15.0 and d[2, 2] == 22.0 and d[1, 1] == 11.0
